@@ -14,8 +14,10 @@ Record kinput := {
   k_failat : nat;        (* 1-based ping that fails; 0 = none *)
   k_nsucc : nat;         (* successful pings observed before the terminating event *)
   k_suffix : list sel;   (* what the environment goes on offering afterwards *)
-  k_tcp : bool;          (* real XMPPTransport: model Ping as a one-byte write *)
-  k_srvn : nat           (* tcp, failing path: bytes the server had read when it was cut *)
+  k_mode : Z;            (* 0 stub transport; 1 real XMPPTransport over TCP; 2 real XMPPTransport
+                            over a scripted net.Conn (every conn.Write call and its result visible) *)
+  k_srvn : nat;          (* mode 1, failing path: bytes the server had read when it was cut *)
+  k_script : list wres   (* mode 2: results of the successive conn.Write calls (then (1, nil)) *)
 }.
 
 Definition dec_sel (x : sx) : option sel :=
@@ -25,13 +27,20 @@ Definition dec_sel (x : sx) : option sel :=
   | _ => None
   end.
 
+Definition dec_wres (x : sx) : option wres :=
+  match x with
+  | SL [SZ n; SZ e] => Some (if e =? 0 then WOk n else WErr n)
+  | _ => None
+  end.
+
 Definition dec_input (x : sx) : option kinput :=
   match x with
-  | SL [iv; term; failat; nsucc; suffix; tcp; srvn] =>
+  | SL [iv; term; failat; nsucc; suffix; mode; srvn; script] =>
       do i <- as_z iv; do t <- as_z term; do f <- as_nat failat; do n <- as_nat nsucc;
-      do s <- as_list dec_sel suffix; do c <- as_b tcp; do r <- as_nat srvn;
+      do s <- as_list dec_sel suffix; do c <- as_z mode; do r <- as_nat srvn;
+      do w <- as_list dec_wres script;
       Some {| k_interval := i; k_term := t; k_failat := f; k_nsucc := n;
-              k_suffix := s; k_tcp := c; k_srvn := r |}
+              k_suffix := s; k_mode := c; k_srvn := r; k_script := w |}
   | _ => None
   end.
 
@@ -52,7 +61,9 @@ Definition schedule (i : kinput) : list sel :=
 
 Definition fail_oracle (i : kinput) : nat -> bool :=
   let f := k_failat i in
-  if k_tcp i
+  if k_mode i =? 2
+  then tcp_fail (fun k => nth (pred k) (k_script i) (WOk 1))
+  else if k_mode i =? 1
   then tcp_fail (fun k => if Nat.eqb f 0 then WOk 1 else if Nat.eqb k f then WErr 0 else WOk 1)
   else fun k => negb (Nat.eqb f 0) && Nat.eqb k f.
 
@@ -60,12 +71,17 @@ Definition run_typed (i : kinput) : sx :=
   let tr := keepalive (k_interval i) (fail_oracle i) (schedule i) in
   let w := wire tr in
   let wire_sx :=
-    if negb (k_tcp i) then SS []
+    if negb (k_mode i =? 1) then SS []
     else if k_term i =? 1
          then (* the server was cut: it read a prefix of what was handed to the connection *)
               if Nat.leb (k_srvn i) (length w) then SS (firstn (k_srvn i) w) else SL [SZ (-1)]
          else (* connection healthy: every successful ping's byte arrives *)
               SS (flat_map (fun a => match a with APingOk => ping_data | _ => [] end) tr) in
-  SL [SL (flat_map act_sx tr); wire_sx].
+  (* mode 2: the conn.Write calls made by each Ping, in order *)
+  let ping_writes :=
+    if k_mode i =? 2
+    then flat_map (fun a => if is_ping a then [SL [SS (fst (xmpp_ping (WOk 1)))]] else []) tr
+    else [] in
+  SL [SL (flat_map act_sx tr); wire_sx; SL ping_writes].
 
 Definition run_C18 : sx -> sx := with_input dec_input run_typed.
